@@ -164,7 +164,7 @@ package wamp
 
 //@ func RecvTimeout
 //@   requires !isnil(p)
-//@   ensures [message-or-error] isnil(result1) ==> !isnil(result0) && (is(result0, *Hello) ==> result0.(*Hello) != nil) && (is(result0, *Authenticate) ==> result0.(*Authenticate) != nil)
+//@   ensures [message-or-error] isnil(result1) ==> wellformed(result0)
 
 // NormalizeDict goes through reflect; the only fact used is that a value of a
 // map kind (wamp.Dict here) always yields a non-nil Dict.
